@@ -53,7 +53,7 @@ pub struct Device {
 
 use DisabledOptions::*;
 
-use crate::instruction::operation::Operation;
+use crate::instruction::{operation::Operation, register::Reg16, IndexOps, InstructionOps};
 
 impl Device {
     pub fn new(flash_size: u32) -> Self {
@@ -69,8 +69,13 @@ impl Device {
 
     pub fn check_operation(&self, op: &Operation) -> bool {
         match op {
-            Operation::Mul => self.allow(NoMul),
-            Operation::Jmp => self.allow(NoJmp),
+            Operation::Mul
+            | Operation::Muls
+            | Operation::Mulsu
+            | Operation::Fmul
+            | Operation::Fmuls
+            | Operation::Fmulsu => self.allow(NoMul),
+            Operation::Jmp | Operation::Call => self.allow(NoJmp),
             Operation::Lpm => self.allow(NoLpm),
             Operation::Elpm => self.allow(NoElpm),
             Operation::Spm => self.allow(NoSpm),
@@ -98,6 +103,30 @@ impl Device {
                 } else {
                     false
                 }
+            }
+            _ => true,
+        }
+    }
+
+    /// Addressing forms the device lacks: X/Y pointer forms, lpm/elpm Rd, Z(+)
+    pub fn check_operands(&self, op: &Operation, op_args: &[InstructionOps]) -> bool {
+        match op {
+            Operation::Lpm if !op_args.is_empty() => self.allow(NoLpmX),
+            Operation::Elpm if !op_args.is_empty() => self.allow(NoElpmX),
+            Operation::Ld | Operation::St | Operation::Ldd | Operation::Std => {
+                op_args.iter().all(|arg| match arg {
+                    InstructionOps::Index(
+                        IndexOps::None(r16)
+                        | IndexOps::PostIncrement(r16)
+                        | IndexOps::PreDecrement(r16)
+                        | IndexOps::PostIncrementE(r16, _),
+                    ) => match r16 {
+                        Reg16::X => self.allow(NoXreg),
+                        Reg16::Y => self.allow(NoYreg),
+                        Reg16::Z => true,
+                    },
+                    _ => true,
+                })
             }
             _ => true,
         }
